@@ -61,7 +61,7 @@ class Case:
     functions: list = []
     timeout_ms = 20000
     max_paths = 5000
-    budget_s = 240
+    budget_s = 480  # wall clock per case; sized so that verdicts do not flip when all cores are busy (slowest quick case ~175 s alone)
 
     def body(self, ctx):
         raise NotImplementedError
